@@ -76,6 +76,11 @@ theorem map_cycTake (g : α → β) (F : List α) (t : Nat) : (cycTake F t).map 
   unfold cycTake
   rw [List.map_take, map_rep]
 
+/-- `p` whole passes: the first `p · |F|` elements of the endless repetition are `p` copies of `F` -/
+theorem cycTake_full (F : List α) (p : Nat) (hf : 0 < F.length) : cycTake F (p * F.length) = rep p F := by
+  rw [cycTake_eq F (p * F.length) p hf (Nat.le_refl _)]
+  exact List.take_of_length_le (by simp)
+
 theorem chosenIds_zip (cases : List String) (is : List Nat) (ts : List String) :
     ((List.zipWith (fun i t => (⟨i, t⟩ : Entry)) is ts).filter (isChosen cases)).map (·.id)
       = (is.zip ts).filterMap (fun (x : Nat × String) => if Spec.C14.isChosenTag cases x.2 then some x.1 else none) := by
